@@ -308,7 +308,16 @@ func (c *Channel) newResp(m0 []byte, minTime tai64.TAI64N) (*Session, error) {
 // and checks to see if it should become the new prospective session, possibly
 // replacing an existing prospective session.
 func (c *Channel) proposeNewSession(sid [32]byte, newS *Session) (ret *Session) {
-	if s := c.sessions[2].Session; s != nil && bytes.Compare(c.sessions[2].ID[:], sid[:]) < 0 {
+	if s := c.sessions[2].Session; s != nil && !s.IsInit() && !newS.IsInit() {
+		// Both handshakes were started by the remote peer, so it has abandoned the older one
+		// (it restarted, or its session expired): the newer hello wins. The hash tie-break below
+		// is only meaningful between our own initiation and the peer's.
+		if newS.InitHelloTime().Before(s.InitHelloTime()) {
+			c.log.Debug("not replacing prospective session with an older hello")
+			return s
+		}
+		ret = newS
+	} else if s != nil && bytes.Compare(c.sessions[2].ID[:], sid[:]) < 0 {
 		c.log.Debug("not replacing prospective session")
 		return s
 	} else if s != nil {
